@@ -200,6 +200,17 @@ def _strip_lt(s):
     return re.sub(r"'[a-z_]+,? ?", "", s or "")
 
 
+def has_self_receiver(b):
+    """an associated function callable with method syntax: its first parameter is Self, &Self or &mut Self"""
+    imp = b.get("impl") or {}
+    st = _strip_lt(imp.get("self_ty") or "")
+    if not st or b.get("arg_count", 0) < 1 or len(b["locals"]) < 2:
+        return False
+    t = _strip_lt(b["locals"][1]["ty"])
+    t = re.sub(r"^&(mut )?", "", t)
+    return t == st or t == "Self"
+
+
 def methods(crate, name, trait=None, self_re=None, targ_re=None, inherent=False):
     """Find method bodies by resolved impl metadata (never by position or text)."""
     out = []
